@@ -32,7 +32,8 @@ OUTSIDE = [
     "'total volume equals the prescribed maximum to bisection tolerance': needs the complete ~30-step data-dependent "
     "bisection (2^30 paths); here the bisection is bounded to 2 (thorough 3) steps through the public arguments "
     "l1init / l2init / l1l2tol, and only the clauses that do not depend on the number of steps are claimed: NOT decided",
-    "convergence of the iteration to the analytic optimum of sum c_i / x_i: NOT decided",
+    "convergence of the iteration to the analytic optimum of sum c_i / x_i: NOT decided (only the stopping rule of one "
+    "iteration: the update is discarded exactly when |x_new - x| / |x| of the whole design is below tolx)",
     "more than one outer iteration in one symbolic run, except the 'idlefirst' items (two iterations, the first with an "
     "objective that does not depend on the design, so that volume is lost and the bracket/target carried into the second "
     "iteration is observable); two ordinary chained iterations do not finish",
@@ -327,6 +328,17 @@ def sc_oc(V, P, cfg):
             cl.eq("state==OC-update[%d]" % j, fl[j], want[j], "write-back")
         else:
             cl.eq("state-unchanged-on-break[%d]" % j, fl[j], xflat[j], "write-back")
+    if cfg["tolx"] == "sym" and all(v is not None for v in fl) and iters == 1:
+        # documented stopping rule ("tolx: stopping criterium for relative design change"): the run stops without writing
+        # the update exactly when the relative change of the WHOLE design, |x_new - x| / |x|, is below tolx
+        num, den = 0, 0
+        for j in range(n):
+            num = num + (want[j] - xflat[j]) * (want[j] - xflat[j])
+            den = den + xflat[j] * xflat[j]
+        if written:
+            cl.le("update-written => |dx|/|x| >= tolx", tolx * tolx * den, num, "stopping-rule")
+        else:
+            cl.le("stopped => |dx|/|x| <= tolx", num, tolx * tolx * den, "stopping-rule")
     if cfg["pos"]:
         # (the warning itself depends on max(dfdx) > 1e-15, not on the sign alone: it is observed, not required)
         cl.true("at-most-one-warning", nwarn <= 1, "clipping")
